@@ -13,6 +13,7 @@ from vf import gen as G, model as M, opwork as W, oracle as O, props as P, snaps
 from vf.checks.common import Case, call, exc_text
 
 ID = "C05"
+TECHNIQUE = "runtime monitoring: conservation monitor (inclusion-exclusion of exact moments) over operator executions"
 LEVEL = "exploration"
 RULE = ("the operand pair generator of C01 (all kinds^2, int/Fraction/float, degrees 1-3, far / nested / overlapping / close) "
         "and root nodes of random programs; for each pair the five results A|B, A&B, A-B, A^B, ~A and the six moments "
